@@ -23,7 +23,7 @@ ENGINES = [
      "kind_free_text": "regeneration of the data-like model parts (group tables, handle bounds, JSON schema) from the running code; "
                        "finite facts decided by vm_compute"},
     {"name": "opt", "path": "harness/src/opt.rs + ocaml/engine_opt.ml + coq/model/Optimiser.v",
-     "serves_properties": ["C05", "C06", "C07", "C18", "C19", "C20"],
+     "serves_properties": ["C05", "C06", "C07", "C08", "C18", "C19", "C20"],
      "kind_free_text": "bit-exact correspondence of the extracted Coq optimiser model with MCOptimiser::optimise_state "
                        "on scripted and real states, plus direct monitors on the recorded history"},
 ]
@@ -40,6 +40,18 @@ GEOM_NOTE = ("Trusted: Coq kernel; extraction + float64 shim; harness/driver tra
              "cos/sin of the angles are values supplied by libm (premises).")
 
 CLAIMS = {
+    "C08": dict(
+        engine="opt", design_ref="DESIGN.md section 4 C08",
+        technique="handle data regenerated from the running code + vm_compute; Coq induction over the run for the range invariant (binary64 and reals) + bit-exact replay on real states + monitors on chains of stages",
+        text="coq/gen/GenBounds.v is regenerated on every run by probing generate_basis() of the initial state of all 7 groups x 5 "
+             "state kinds; vm_compute decides that the handles are exactly length in [0.01, start], ratio in [0.1, start], angle in "
+             "[pi/6, pi/2] for oblique groups and NO angle handle for rectangular ones, x, y in [-1/2, 1/2], orientation in [0, 2 pi], "
+             "with a defined initial score and the group's copy count.  Theorem (induction over the run, any score oracle and "
+             "random stream): every handled parameter stays in its handle's range and every other parameter keeps its value - "
+             "binary64 provided no sampled value is NaN, reals unconditionally; the held state's score is always defined; chained "
+             "stages use sub-ranges.  Monitors check ranges, family, finite score on chains of 1-5 optimisation stages of clones.",
+        note=OPT_NOTE + "  Finiteness of the sampled value (no inf*0) is a premise, monitored; that EVERY shape of well-defined "
+             "area starts from a valid state is checked for the dumped shapes only (polygon, circle, trimer), not proved for all."),
     "C02": dict(
         engine="geom", design_ref="DESIGN.md section 4 C02",
         technique="Coq proofs over the reals of the formula identities (partial: lens integral and score <= 1 not proved) + model/impl comparison of areas and scores + exact union-of-discs and shoelace oracles",
@@ -190,4 +202,4 @@ CLAIMS = {
 
 _NOT_YET = "not claimed yet: the model/theorems/engine for this property are still being built (see DESIGN.md section 7)"
 NOT_APPLICABLE = {p: _NOT_YET for p in
-                  ["C08", "C09", "C10", "C11"]}
+                  ["C09", "C10", "C11"]}
